@@ -2,6 +2,7 @@ package props
 
 import (
 	"go/ast"
+	"go/constant"
 	"go/token"
 	"go/types"
 	"sort"
@@ -28,6 +29,8 @@ func init() {
 }
 
 func runC08(c *core.Ctx) {
+	c.Rule("C08.restoremark", "A1 (sibling agreement): every Service function that calls restoreTopic clears closedTopics[topic] after a successful restore")
+	c.Rule("C08.detach", "A1: every Service function that removes the running topic (Topics.DeleteTopic) marks it closed or registers s.handlers[topic] again")
 	c.Rule("C08.collect", "A1: Service.Collect: closed topic ⇒ restoreClosedTopic first (its error returned before anything else); then topics.Collect; then on every path, also when a handler could not take the event, PersistTopics∧level=OK ⇒ clearHistory else persistEventState; the delivery error is returned before the storage error; the event passed on is the collected event")
 	c.Rule("C08.recheck", "A1/A5: restoreClosedTopic re-reads closedTopics[topic] after taking the write lock and restores only if it is still closed; the flag is cleared only after a successful restore")
 	c.Rule("C08.mapping", "A7: convertEventStateFromAlert, convertEventStateToAlert and EventState.AlertEventState copy the same set of fields (every field of the persisted record; ID is the key); EventState.Reset assigns every field of the record")
@@ -62,6 +65,9 @@ func runC08(c *core.Ctx) {
 		c09Restore(c, ap, "C08.fresh")
 	}
 	c08Migrate(c, sp)
+	c08MigrateRepeat(c, sp)
+	c08RestoreMark(c, sp)
+	c08Detach(c, sp)
 	if root := c.P.Pkg(""); root != nil {
 		c08Precedence(c, root)
 	}
@@ -933,5 +939,253 @@ func c08KeyBuf(c *core.Ctx, sp *packages.Package) {
 	}
 	if good {
 		c.Ok("C08.keybuf", "Service.loadSavedTopicStates")
+	}
+}
+
+// c08RestoreMark (F91): every function of the service that restores a topic from the store (calls restoreTopic) clears the
+// topic's closed mark on the path where the restore succeeded. A mark that stays makes the next Collect restore the topic once
+// more, over what was updated in between.
+func c08RestoreMark(c *core.Ctx, sp *packages.Package) {
+	info := sp.TypesInfo
+	n := 0
+	for _, f := range core.AllFuncs(sp) {
+		if core.RecvName(f.Decl) != "Service" || f.Decl.Name.Name == "restoreTopic" {
+			continue
+		}
+		calls := false
+		ast.Inspect(f.Decl.Body, func(nd ast.Node) bool {
+			if call, ok := nd.(*ast.CallExpr); ok {
+				if cal := core.Callee(info, call); cal != nil && cal.Name() == "restoreTopic" && core.RecvTypeName(cal) == "Service" {
+					calls = true
+				}
+			}
+			return true
+		})
+		if !calls {
+			continue
+		}
+		n++
+		c.Analysed(f)
+		name := "Service." + f.Decl.Name.Name
+		eng := &an.Engine{Prog: c.P,
+			TrackCall: func(call *ast.CallExpr, callee *types.Func) string {
+				if core.IsBuiltin(info, call, "delete") && len(call.Args) == 2 && an.FieldSel(info, call.Args[0], "Service", "closedTopics") {
+					return "unmark"
+				}
+				if callee != nil && callee.Name() == "restoreTopic" && core.RecvTypeName(callee) == "Service" {
+					return "restoreTopic"
+				}
+				return ""
+			},
+			Classify: func(a an.Atom) (string, bool) {
+				if k, ok := an.ErrNilAtom(info, a); ok && strings.Contains(k, ".restoreTopic(") {
+					return "err", true
+				}
+				return "", false
+			}}
+		paths, err := eng.Run(f)
+		if err != nil {
+			c.Undecided("C08.restoremark", name, f.Decl.Pos(), "%v", err)
+			continue
+		}
+		good := true
+		for _, p := range paths {
+			r := p.Find("restoreTopic")
+			if r == nil || p.Exit == "panic" {
+				continue
+			}
+			a := p.Assign()
+			if v, decided := a["err"]; decided && v {
+				continue
+			}
+			if len(p.Rets) == 1 && strings.Contains(p.Rets[0], ".restoreTopic(") {
+				// the result is handed on untested: the path stands for success and failure
+				good = false
+				c.Fail("C08.restoremark", name+"#unmark", p.RetPos, "%s returns restoreTopic's result without clearing the topic's closed mark on success: a topic that was closed (a task that stopped) and is restored this way stays marked, the next event restores it a second time from the store and wipes what was updated since (the event's previous level becomes OK, other events of the topic are gone)", name)
+				continue
+			}
+			u := p.Find("unmark")
+			okk := u != nil && p.Index("unmark") > p.Index("restoreTopic") && len(u.Args) == 2 && len(r.Args) == 1 && u.Args[1] == r.Args[0]
+			if !okk {
+				good = false
+				c.Fail("C08.restoremark", name+"#unmark", p.RetPos, "%s restores the topic (restoreTopic succeeded) without clearing its closed mark (delete(s.closedTopics, topic)) afterwards: the next Collect restores the topic a second time from the store and wipes what was updated since; path condition: %s", name, p.Cond())
+			}
+		}
+		if good {
+			c.Ok("C08.restoremark", name+"#unmark")
+		}
+	}
+	c.Floor("C08.restoremark", "callers of Service.restoreTopic", n, 2)
+}
+
+// c08Detach (F92): every function of the service that removes the running topic (Topics.DeleteTopic closes the topic's
+// handlers) either marks the topic closed, so that the next Collect restores it together with its handlers, or registers the
+// handlers that are defined for the topic again.
+func c08Detach(c *core.Ctx, sp *packages.Package) {
+	info := sp.TypesInfo
+	n := 0
+	for _, f := range core.AllFuncs(sp) {
+		if core.RecvName(f.Decl) != "Service" {
+			continue
+		}
+		var del *ast.CallExpr
+		ast.Inspect(f.Decl.Body, func(nd ast.Node) bool {
+			if call, ok := nd.(*ast.CallExpr); ok {
+				if cal := core.Callee(info, call); cal != nil && cal.Name() == "DeleteTopic" && core.RecvTypeName(cal) == "Topics" {
+					del = call
+				}
+			}
+			return true
+		})
+		if del == nil || len(del.Args) != 1 {
+			continue
+		}
+		n++
+		c.Analysed(f)
+		topic := types.ExprString(del.Args[0])
+		name := "Service." + f.Decl.Name.Name
+		marks, unmarkAfter := token.NoPos, token.NoPos
+		rereg := false
+		ast.Inspect(f.Decl.Body, func(nd ast.Node) bool {
+			switch x := nd.(type) {
+			case *ast.AssignStmt:
+				if len(x.Lhs) == 1 && len(x.Rhs) == 1 {
+					if ix, ok := ast.Unparen(x.Lhs[0]).(*ast.IndexExpr); ok && an.FieldSel(info, ix.X, "Service", "closedTopics") && types.ExprString(ix.Index) == topic && types.ExprString(x.Rhs[0]) == "true" && x.Pos() > del.Pos() {
+						marks = x.Pos()
+					}
+				}
+			case *ast.CallExpr:
+				if core.IsBuiltin(info, x, "delete") && len(x.Args) == 2 && an.FieldSel(info, x.Args[0], "Service", "closedTopics") && types.ExprString(x.Args[1]) == topic {
+					unmarkAfter = x.Pos()
+				}
+			case *ast.RangeStmt:
+				ix, ok := ast.Unparen(x.X).(*ast.IndexExpr)
+				if !ok || !an.FieldSel(info, ix.X, "Service", "handlers") || types.ExprString(ix.Index) != topic || x.Pos() < del.Pos() {
+					return true
+				}
+				early, reg := false, false
+				ast.Inspect(x.Body, func(m ast.Node) bool {
+					switch y := m.(type) {
+					case *ast.FuncLit:
+						return false
+					case *ast.ReturnStmt:
+						early = true
+					case *ast.BranchStmt:
+						early = true
+					case *ast.CallExpr:
+						if cal := core.Callee(info, y); cal != nil && cal.Name() == "RegisterHandler" && core.RecvTypeName(cal) == "Topics" && len(y.Args) == 2 && types.ExprString(y.Args[0]) == topic {
+							reg = true
+						}
+					}
+					return true
+				})
+				if reg && !early {
+					rereg = true
+				}
+			}
+			return true
+		})
+		marked := marks != token.NoPos && !(unmarkAfter != token.NoPos && unmarkAfter > marks)
+		c.Check(marked || rereg, "C08.detach", name+"#handlers", del.Pos(), "%s removes the running topic — Topics.DeleteTopic closes the handlers registered on it — and neither marks the topic closed (the next Collect would restore it with its handlers) nor registers the handlers of s.handlers[%s] again: the handler specs stay defined and listed, and get no event until the next restart", name, topic)
+	}
+	c.Floor("C08.detach", "Service functions that remove a running topic", n, 2)
+}
+
+// c08MigrateRepeat (F97): the migration is started again after a crash. Its first step writes the backup with CopyFile; when
+// CopyFile creates the destination exclusively (O_EXCL), what an interrupted run left behind has to be removed before, on every
+// path, or every later start fails.
+func c08MigrateRepeat(c *core.Ctx, sp *packages.Package) {
+	info := sp.TypesInfo
+	fn := c.Need("C08.migrate", "services/alert", "Service", "MigrateTopicStoreV1V2")
+	cp := c.Need("C08.migrate", "services/alert", "", "CopyFile")
+	if fn == nil || cp == nil {
+		return
+	}
+	dest := an.ParamName(cp.Decl.Type, 1)
+	excl, opens := false, 0
+	ast.Inspect(cp.Decl.Body, func(nd ast.Node) bool {
+		call, ok := nd.(*ast.CallExpr)
+		if !ok {
+			return true
+		}
+		cal := core.Callee(info, call)
+		if cal == nil || cal.Pkg() == nil || cal.Pkg().Path() != "os" {
+			return true
+		}
+		switch cal.Name() {
+		case "OpenFile":
+			if len(call.Args) == 3 && types.ExprString(call.Args[0]) == dest {
+				opens++
+				tv, ok := info.Types[call.Args[1]]
+				if !ok || tv.Value == nil {
+					excl = true // flags not constant: assume the strict case
+					return true
+				}
+				v, _ := constant.Int64Val(constant.ToInt(tv.Value))
+				if k, ok := cal.Pkg().Scope().Lookup("O_EXCL").(*types.Const); ok {
+					if e, exact := constant.Int64Val(constant.ToInt(k.Val())); exact && v&e != 0 {
+						excl = true
+					}
+				} else {
+					excl = true
+				}
+			}
+		case "Create":
+			if len(call.Args) == 1 && types.ExprString(call.Args[0]) == dest {
+				opens++
+			}
+		}
+		return true
+	})
+	if opens == 0 {
+		c.Undecided("C08.migrate", "CopyFile#dest", cp.Decl.Pos(), "CopyFile does not open its destination with os.OpenFile/os.Create: cannot tell whether the copy can be repeated")
+		return
+	}
+	if !excl {
+		c.Ok("C08.migrate", "MigrateTopicStoreV1V2#repeatable", "CopyFile does not create exclusively")
+		return
+	}
+	eng := &an.Engine{Prog: c.P,
+		TrackCall: func(call *ast.CallExpr, callee *types.Func) string {
+			if callee == nil {
+				return ""
+			}
+			if callee.Name() == "CopyFile" {
+				return "backup"
+			}
+			if callee.Pkg() != nil && callee.Pkg().Path() == "os" && (callee.Name() == "Remove" || callee.Name() == "RemoveAll") {
+				return "unlink"
+			}
+			return ""
+		}}
+	paths, err := eng.Run(fn)
+	if err != nil {
+		c.Undecided("C08.migrate", "MigrateTopicStoreV1V2#repeatable", fn.Decl.Pos(), "%v", err)
+		return
+	}
+	good, seen := true, false
+	for _, p := range paths {
+		bi := p.Index("backup")
+		if bi < 0 {
+			continue
+		}
+		seen = true
+		b := p.Events[bi]
+		okk := false
+		for _, e := range p.Events[:bi] {
+			if e.Name == "unlink" && e.Kind != "defer" && len(e.Args) == 1 && len(b.Args) == 2 && e.Args[0] == b.Args[1] {
+				okk = true
+			}
+		}
+		if !okk {
+			good = false
+			c.Fail("C08.migrate", "MigrateTopicStoreV1V2#repeatable", p.RetPos, "the backup is written with CopyFile, which creates its destination exclusively (O_EXCL), and nothing removes a backup left behind before: after a crash during the migration (the backup is only removed at its end) every later start fails with 'file exists' and the alert service — with all persisted alert state — does not come up")
+			break
+		}
+	}
+	if good && seen {
+		c.Ok("C08.migrate", "MigrateTopicStoreV1V2#repeatable")
+	} else if !seen {
+		c.Undecided("C08.migrate", "MigrateTopicStoreV1V2#repeatable", fn.Decl.Pos(), "no path calls CopyFile")
 	}
 }
